@@ -749,7 +749,8 @@ Definition h_xread (d : db) (parts : list frame) : frame * db :=
       match xread_ids d (firstn n rest) (skipn n rest) with
       | XrErr f => (f, d)
       | XrOk l =>
-          match engine_xread d l (ro_count o) with
+          (* COUNT 0 means no limit (as for XREADGROUP, cc6cf30) *)
+          match engine_xread d l (match ro_count o with Some c => if c =? 0 then None else Some c | None => None end) with
           | Some fr => (FArray fr, d)
           | None => (r_wrongtype, d)
           end
